@@ -543,6 +543,12 @@ def explore(run, max_paths=4096, setup=None, canary=True, **ctxkw):
             run()
         except PathEnd:
             pass
+        except Undecided as e:
+            c.obls.append(Obl("engine.undecided", "unknown", None, "none", 0.0, n, str(e)[:300], None, "engine"))
+        except (TypeError, AttributeError, NameError, IndexError, KeyError, ValueError, ZeroDivisionError, AssertionError) as e:
+            # the code under test (or a model) raised on this path: no verdict from the prover; the native replay decides
+            import traceback as _tb
+            c.obls.append(Obl("engine.exception_on_path", "unknown", None, "none", 0.0, n, f"{type(e).__name__}: {e} @ {_tb.format_exc()[-400:]}", None, "engine"))
         if canary:
             hy = c.hyps()
             r = _forked(lambda: _z3_check(hy, z3.BoolVal(False), 4000, False), 6.0)
@@ -943,6 +949,35 @@ def _site(kind):
     return f"safety.{kind}@{fn}#{c.ghost[k]}"
 
 
+_SQRT = z3.Function("Sqrt", z3.RealSort(), z3.RealSort())
+_INV = z3.Function("Inv", z3.RealSort(), z3.RealSort())
+
+
+def uf_axioms(terms):
+    """definitional instances for every ground application of the ghost functions Sqrt / Inv occurring in the terms:
+    t >= 0 => Sqrt(t) >= 0 and Sqrt(t)^2 = t;   t != 0 => t * Inv(t) = 1   (used in kernel mode, ctx.uf_math)"""
+    out = []
+    seen = set()
+    todo = list(terms)
+    while todo:
+        t = todo.pop()
+        if t.get_id() in seen:
+            continue
+        seen.add(t.get_id())
+        if z3.is_quantifier(t):
+            continue
+        if z3.is_app(t):
+            d = t.decl()
+            if d.eq(_SQRT):
+                a = t.children()[0]
+                out.append(z3.Implies(a >= 0, z3.And(t >= 0, t * t == a)))
+            elif d.eq(_INV):
+                a = t.children()[0]
+                out.append(z3.Implies(a != 0, a * t == 1))
+            todo.extend(t.children())
+    return out
+
+
 def real_div(num: SR, den: SR, label=None):
     isc, v = _is_const(den.e)
     if isc:
@@ -950,6 +985,12 @@ def real_div(num: SR, den: SR, label=None):
             raise ZeroDivisionError("division by the constant zero")
         return SR(num.e / v)
     c = CTX
+    if getattr(c, "uf_math", False):
+        if c.safety:
+            check(label or _site("div_nonzero"), den.e != 0, kind="safety")
+        inv = _INV(den.e)
+        c.ax.extend(uf_axioms([inv]))
+        return SR(num.e * inv)
     q = FreshReal("q")
     for (n0, d0, q0) in c.ghost.setdefault("divs", []):
         if n0.eq(num.e) and d0.eq(den.e):
@@ -994,6 +1035,12 @@ def real_sqrt(x: SR, label=None):
         d = math.isqrt(fr.denominator)
         if r >= 0 and r * r == fr.numerator and d * d == fr.denominator:
             return SR(z3.RealVal(f"{r}/{d}"))
+    if getattr(c, "uf_math", False):
+        if c.safety:
+            check(label or _site("sqrt_arg_nonneg"), x.e >= 0, kind="safety")
+        t = _SQRT(x.e)
+        c.ax.extend(uf_axioms([t]))
+        return SR(t)
     s = FreshReal("sqrt")
     for (a0, s0) in c.ghost.setdefault("sqrts", []):
         if a0.eq(x.e):
